@@ -361,6 +361,31 @@ func init() {
 				c1.Canceller = true
 				add("many/canceller-w1/"+op, c1, k1, w1)
 			}
+			// more failing units than workers in the last stage (every root fails there)
+			for _, w := range []map[string]int{w2, w1} {
+				tag := "w2"
+				if w["*"] == 1 {
+					tag = "w1"
+				}
+				add("many/verify-all-missing/"+tag, NewDrv("verify", many), k1, w)
+				cbAll := NewDrv("walk", many)
+				cbAll.CbFailAt = 1
+				add("many/callback-always-fails/"+tag, cbAll, k1, w)
+				mk := NewDrv("mkdir", many)
+				mk.Pre = map[string]byte{}
+				for i := 0; i < 8; i++ {
+					mk.Pre[fmt.Sprintf("r%d", i)] = 'd'
+				}
+				add("many/mkdir-all-exist/"+tag, mk, k1, w)
+				wj := NewDrv("out-json", many)
+				wj.WriterFailAt = 1
+				add("many/writer-always-fails/out-json/"+tag, wj, k1, w)
+				wt := NewDrv("out-text", many)
+				wt.WriterFailAt = 1
+				add("many/writer-always-fails/out-text/"+tag, wt, k1, w)
+				gb := NewDrv("out-text", strings.ReplaceAll(many, "  - k", "  -"))
+				add("many/every-block-malformed/"+tag, gb, k1, w)
+			}
 			r := NewDrv("out-text", many)
 			r.ReaderFailAfter = len(many) - 3
 			add("many/readerfail-late/out-text", r, k1, w2)
